@@ -3,10 +3,12 @@ package main
 // LongForm family (C17): VDR.Create / VDR.Read, dochandler.ResolveDocument / ProcessOperation.
 
 import (
+	"bytes"
 	"crypto/ed25519"
 	"encoding/base64"
 	"encoding/json"
 	"fmt"
+	"github.com/trustbloc/sidetree-go/pkg/document"
 	"os"
 	"sort"
 	"strings"
@@ -35,6 +37,8 @@ type lfCase struct {
 	Call     int     `json:"call"`
 	Resolves bool    `json:"resolves"`
 	Probe    lfProbe `json:"probe"`
+	Shape    string  `json:"shape"`
+	Same     bool    `json:"same"`
 }
 
 // what the caller supplies for document variant d
@@ -363,6 +367,8 @@ func longformReplay(args []string) {
 		k := fmt.Sprintf("longform:%s:doc=%d", c.Kind, c.Doc)
 		if c.Kind == "resolve" {
 			k += fmt.Sprintf(":ns=%s:enc=%s:sfx=%s:form=%s", c.Probe.Ns, c.Probe.Enc, c.Probe.Sfx, c.Probe.Form)
+		} else if c.Kind == "process" {
+			k += ":shape=" + c.Shape
 		} else {
 			k += fmt.Sprintf(":keys=%d", c.Keys)
 		}
@@ -578,6 +584,104 @@ func longformReplay(args []string) {
 					}
 				}
 			}
+		case "process":
+			res, err := createOnce(c.Doc, 1)
+			if err != nil {
+				fail("create-error", err.Error(), nil, nil)
+				return
+			}
+
+			did := res.DIDDocument.ID
+			parts := strings.Split(did, ":")
+			state, _ := base64.RawURLEncoding.DecodeString(parts[3])
+
+			var req map[string]interface{}
+			if err := json.Unmarshal(state, &req); err != nil {
+				fatalf("initial state: %v", err)
+			}
+
+			req["type"] = "create"
+			canon, _ := refJCS(req)
+
+			var text []byte
+
+			switch c.Shape {
+			case "as_built":
+				text = canon
+			case "whitespace":
+				var buf bytes.Buffer
+
+				_ = json.Indent(&buf, canon, " ", "\t")
+				text = append([]byte("\n "), append(buf.Bytes(), ' ', '\n')...)
+			case "member_order":
+				// members in descending order
+				text = []byte(fmt.Sprintf(`{"type":"create","suffixData":%s,"delta":%s}`, mustJCS(req["suffixData"]), mustJCS(req["delta"])))
+			case "further_member":
+				req["further"] = map[string]interface{}{"a": 1}
+				text, _ = refJCS(req)
+			case "further_delta_member":
+				req["delta"].(map[string]interface{})["further"] = "x"
+				text, _ = refJCS(req)
+			case "further_suffix_member":
+				req["suffixData"].(map[string]interface{})["further"] = "x"
+				text, _ = refJCS(req)
+			case "member_case":
+				text = []byte(strings.Replace(strings.Replace(string(canon), `"delta":`, `"Delta":`, 1), `"suffixData":`, `"SuffixData":`, 1))
+			case "escaped_member_name":
+				text = []byte(strings.Replace(string(canon), `"delta":`, `"\u0064elta":`, 1))
+			default:
+				fatalf("unknown request shape %q", c.Shape)
+			}
+
+			sent := string(text)
+			pres, perr := handler.ProcessOperation(text)
+
+			if string(text) != sent {
+				fail("process-operation", "the request bytes were modified", sent, string(text))
+				return
+			}
+
+			col.sample(map[string]interface{}{"case": c, "accepted": perr == nil})
+
+			if perr != nil {
+				if c.Same {
+					fail("process-operation", "the client's request in another spelling is refused: "+perr.Error(), "accepted", "refused")
+				}
+
+				return
+			}
+
+			got := pres.Document.ID()
+
+			if c.Same && got != did {
+				fail("process-operation", "the same request in another spelling is answered with another DID", did, got)
+				return
+			}
+
+			// what the handler hands out resolves, to the same document, under that id
+			rr, rerr := handler.ResolveDocument(got)
+			if rerr != nil {
+				fail("processed-did-does-not-resolve", "shape "+c.Shape+": "+rerr.Error(), "resolves", got)
+				return
+			}
+
+			if rr.Document.ID() != got {
+				fail("processed-did-does-not-resolve", "resolves under another id", got, rr.Document.ID())
+				return
+			}
+
+			strip := func(r *document.ResolutionResult) string {
+				return digestJSON(generic(r.Document))
+			}
+
+			if strip(rr) != strip(pres) {
+				fail("processed-did-does-not-resolve", "resolves to another document than the one ProcessOperation answered with", generic(pres.Document), generic(rr.Document))
+				return
+			}
+
+			if _, e := vdr.Read(got); e != nil {
+				fail("processed-did-does-not-resolve", "VDR.Read: "+e.Error(), "resolves", got)
+			}
 		case "resolve":
 			res, err := createOnce(c.Doc, 1)
 			if err != nil {
@@ -728,4 +832,13 @@ func lfDocDigest(d *docdid.Doc) string {
 	}
 
 	return digestJSON([]interface{}{json.RawMessage(raw), props})
+}
+
+func mustJCS(v interface{}) []byte {
+	b, err := refJCS(v)
+	if err != nil {
+		fatalf("jcs: %v", err)
+	}
+
+	return b
 }
